@@ -180,9 +180,9 @@ structure St where
   pages : Nat := 0
   grew : Nat := 0
 
-/-- A Spec failure is recorded unless an earlier step of the same case already broke the tie (the model state the
-Spec evaluation leans on would then be unreliable); within one step the Spec is evaluated before the comparison. -/
-def CaseSt.addSpec (c : CaseSt) (s : String) : CaseSt := if c.spec.isSome || c.diff.isSome then c else { c with spec := some s }
+/-- Every Spec clause is evaluated on the implementation's own results and the node's answers only (never on the
+model's state), so a Spec failure is recorded whether or not the tie broke earlier in the case. -/
+def CaseSt.addSpec (c : CaseSt) (s : String) : CaseSt := if c.spec.isSome then c else { c with spec := some s }
 def CaseSt.addDiff (c : CaseSt) (s : String) : CaseSt := if c.diff.isSome then c else { c with diff := some s }
 
 def flush (st : St) : St × List String :=
@@ -435,6 +435,14 @@ def doWinit (st : St) (id : String) (fs : List String) : St × List String :=
     ({ st with c := c }, out)
   | _, _, _, _, _ => ({ st with c := ({ id := id, active := true } : CaseSt).addDiff "unparsable winit line" }, out)
 
+/-- an event as the implementation delivered it: `bh;tx;idx;conv` -/
+def parseUev (s : String) : Option Unconf :=
+  match s.splitOn ";" with
+  | [bh, tx, idx, conv] => do
+    let idx ← parseInt idx; let m ← parseMsg conv
+    pure ⟨{ id := 0, block := bh, tx := tx, idx := idx, contract := "-", conv := some m }, m⟩
+  | _ => none
+
 def track (c : CaseSt) (us : List Unconf) : CaseSt := { c with tracked := c.tracked ++ us.map (·, true) }
 
 def doWbatch (st : St) (fs : List String) : St × List String :=
@@ -511,6 +519,8 @@ def doWtick (st : St) (fs : List String) : St × List String :=
           c.addSpec (if lastIsTi reqs then "metadata-call-panic the fetch loop panicked inside the token metadata call of an attestation-shaped event" else "watcher-panic the fetch loop panicked")
         else if exit && !injected then
           c.addSpec "malformed-event-ends-watcher the fetch loop reported an error although every node request succeeded (an event that does not convert ends the watcher)"
+        else if !exit && pagesRaw.isEmpty && (match cnt, c.implFrom with | some cn, some f => decide (cn > f) | _, _ => false) then
+          c.addSpec s!"fetch-stalled the count ({cnt.getD 0}) is ahead of the next unfetched index ({c.implFrom.getD 0}) but the tick requested no page"
         else if firstStart.isSome && c.implFrom.isSome && firstStart ≠ c.implFrom then
           c.addSpec s!"page-gap-or-overlap first page requested at {firstStart.getD 0}, but the previous tick ended at nextStart {c.implFrom.getD 0}"
         else if gap then
@@ -530,7 +540,12 @@ def doWtick (st : St) (fs : List String) : St × List String :=
         else if s'.enabled ≠ en then c.addDiff s!"block poller enabled after tick: model={s'.enabled} impl={en}"
         else c
       let lastNext := (pagesRaw.filterMap (·.2)).getLast?
-      let c := track { c with st := s', implFrom := if lastNext.isSome then lastNext else c.implFrom } (delivered.getD [])
+      -- what the implementation itself delivered is what the later Spec evaluation refers to
+      let implUs := ((implOut.getD []).filterMap parseUev)
+      let c := if !exit && !implUs.isEmpty && !en then
+                 c.addSpec "poller-not-enabled events were delivered to the event loop but the block poller is not enabled (no height tick will ever process them)"
+               else c
+      let c := track { c with st := s', implFrom := if lastNext.isSome then lastNext else c.implFrom } implUs
       let grew : Bool := match cnt, pagesRaw.getLast? with | some cn, some (_, some nx) => decide (nx > cn) | _, _ => false
       ({ st with c := c, ticks := st.ticks + 1, pages := st.pages + pagesRaw.length, grew := st.grew + (if grew then 1 else 0) }, [])
   | _, _, _, _, _ => ({ st with c := c.addDiff "unparsable wtick line" }, [])
@@ -571,7 +586,10 @@ def doWheight (st : St) (fs : List String) : St × List String :=
         if count p impl + count p c.fwdAll > cands.length then
           some s!"poll-forwarded-twice {p} forwarded {count p impl + count p c.fwdAll} times for {cands.length} delivered event(s) ({good.length} eligible now)"
         else none
-    let c := match (if pan then some "watcher-panic handleEvents panicked" else specFwd) with | some s => c.addSpec s | none => c
+    let c := match (if pan then some "watcher-panic handleEvents panicked"
+                    else if exit && !injected && c.fetch then
+                      some "malformed-event-ends-watcher the event loop ended although every node request succeeded (an event let through by the fetch loop made the handler fail)"
+                    else specFwd) with | some s => c.addSpec s | none => c
     let c := if injected then { c with faulted := true } else c
     -- comparison with the model
     let expReqs := sortStrs (before.pending.flatMap fun pb =>
